@@ -62,6 +62,17 @@ def gen(tier, rng):
             parts.append(s[i:i + k])
             i += k
         cases.append("refnal %s %s" % (nal_src(parts, rng.random() < 0.5), script(rng, parts, 12)))
+    # every two-byte NAL (every header byte x every second byte), complete and incomplete, in one and in two chunks
+    for a in range(256):
+        for b in (range(256) if tier != "quick" else list(range(0, 256, 16)) + [rng.randrange(256) for _ in range(16)]):
+            for complete in (True, False):
+                parts = [bytes([a, b])] if (a + b) % 2 else [bytes([a]), bytes([b])]
+                cases.append("refnal %s %s" % (nal_src(parts, complete), rng.choice(["f,c1,f,c1,f", "r1,r1,r1", "r2,f", "f,K,c1,f"])))
+    for a in range(256):
+        for b in range(0, 256, 16):
+            # the second byte patterns x0: type-9 delimiters and friends, always incomplete, both chunkings
+            cases.append("refnal %s r1,r1,r1,f" % nal_src([bytes([a, b])], False))
+            cases.append("refnal %s f,c1,f,c1,f" % nal_src([bytes([a]), bytes([b])], False))
     # chunks of 4 KiB and more with reads that fit a chunk exactly / span chunks (gather and block fast paths)
     for _ in range(300 if tier == "quick" else 6000):
         sizes = [rng.choice([1, 5, 100, 4095, 4096, 4097, 5000, 8192]) for _ in range(rng.randrange(2, 5))]
